@@ -466,7 +466,7 @@ func c19Collector(r *ev.Run) {
 var hotkeyLine = regexp.MustCompile(`^counter: (\d+)  keyname: (.*)$`)
 
 func c19(r *ev.Run) {
-	r.Rule("counter: PRNG access sequences (uniform / zipf / round-robin over capacity+1 keys) with latches and frees on capacities {0,1,2,3,8,50,255}, every prefix replayed on a fresh counter and consecutive snapshots judged by the step relation; concurrent writers and latchers; collector: PRNG sequences of accesses / collect / evict / free over 1-4 per-backend counters with a virtual minute clock that also ticks in the middle of a collect, with and without concurrent HOTKEY readers; end to end: HOTKEY reply of the real proxy parsed; distinct = distinct (capacity, distribution) / (capacity, counters, tick mode, readers) tuples")
+	r.Rule("counter: PRNG access sequences (uniform / zipf / round-robin over capacity+1 keys) with latches and frees on capacities {0,1,2,3,8,50,255}, every prefix replayed on a fresh counter and consecutive snapshots judged by the step relation; concurrent writers and latchers; collector: PRNG sequences of accesses / collect / evict / free over 1-4 per-backend counters with a virtual minute clock that also ticks in the middle of a collect, with and without concurrent HOTKEY readers, the last four handed-out reports re-read after every step (a handed-out report must not change); end to end: HOTKEY reply of the real proxy parsed; distinct = distinct (capacity, distribution) / (capacity, counters, tick mode, readers) tuples")
 	r.Assume("the tracked state after a prefix is observed by replaying the prefix on a fresh counter and latching (Latch is destructive)")
 	runAPIPart(r, "counter", false, nil, 10*time.Minute)
 	scope := []string{"proc/redis/hotkey/counter.go", "proc/redis/hotkey/collector.go"}
